@@ -107,6 +107,16 @@ def make_adapters(n, p):
             for j in range(p):
                 want = U.value(X[s:e], j) - U.value(X[a:b], j) - U.value(pooled, j)
                 acc.oblige(eng, "local_score.is_outer_minus_inner_minus_pooled", rv(got[i, j]) == want, dict(info, cut=(s, a, b, e), col=j))
+        # the same with a fixed-parameter / non-default-constructed user cost: every one of the three terms
+        # must come from a cost configured like the user's (the pooled term is computed by a refitted copy)
+        laf = LocalAnomalyScore(UFCost(param=1.0, tag="W")).fit(X)
+        Uf = UFCost(param=1.0, tag="W")
+        gotf = laf.evaluate(np.array(cuts))
+        for i, (s, a, b, e) in enumerate(cuts):
+            pooled = np.concatenate((X[s:a], X[b:e]))
+            for j in range(p):
+                want = Uf.value(X[s:e], j) - Uf.value(X[a:b], j) - Uf.value(pooled, j)
+                acc.oblige(eng, "local_score.is_outer_minus_inner_minus_pooled", rv(gotf[i, j]) == want, dict(info, cut=(s, a, b, e), col=j, cost="fixed-parameter user cost"))
         # pass-through converters
         for name, conv, same, other in (
             ("to_change_score", to_change_score, TableChangeScore(p=p), TableSaving(p=p)),
@@ -360,12 +370,14 @@ def replay(cx):
             elif ob.startswith("local_score"):
                 X = rng.integers(-8, 9, size=(n, p)).astype(float)
                 batch = cuts4(n)
-                got = LocalAnomalyScore(L2Cost()).fit(X).evaluate(np.array(batch))
-                r = lambda A: ((A - A.mean(axis=0)) ** 2).sum(axis=0)
+                fixed = "fixed" in str(info.get("cost", ""))
+                cost = L2Cost(1.0) if fixed else L2Cost()
+                got = LocalAnomalyScore(cost).fit(X).evaluate(np.array(batch))
+                r = (lambda A: ((A - 1.0) ** 2).sum(axis=0)) if fixed else (lambda A: ((A - A.mean(axis=0)) ** 2).sum(axis=0))
                 for i, (s, a, b, e) in enumerate(batch):
                     want = r(X[s:e]) - r(X[a:b]) - r(np.concatenate((X[s:a], X[b:e])))
                     if tuple(got.shape) != (len(batch), p) or not np.allclose(got[i], want):
-                        bad.append(f"LocalAnomalyScore(L2Cost).evaluate(batch) row {i} = cut {(s, a, b, e)}: {got[i].tolist()} but outer-inner-pooled = {want.tolist()} on X={X.tolist()}")
+                        bad.append(f"LocalAnomalyScore({'L2Cost(1.0)' if fixed else 'L2Cost()'}).evaluate(batch) row {i} = cut {(s, a, b, e)}: {got[i].tolist()} but outer-inner-pooled = {want.tolist()} on X={X.tolist()}")
                         break
             else:
                 bad.append(f"{ob} failed (concrete obligation, see info {info})")
